@@ -350,10 +350,15 @@ class WARCRecorder(object):
                 with open(self._warc_filename, mode='r+b') as out_file:
                     out_file.truncate(before_offset)
 
-            raise error
-        finally:
+            # Rolled back. (After any other failure the journal has to stay:
+            # the record may be in the file only in part.)
             if os.path.exists(journal_filename):
                 os.remove(journal_filename)
+
+            raise error
+
+        if os.path.exists(journal_filename):
+            os.remove(journal_filename)
 
         after_offset = os.path.getsize(self._warc_filename)
 
